@@ -68,6 +68,28 @@ func gBools(vals []bool) string {
 }
 
 // parse the bytes MarshalJSON produced, keeping member order
+func marshalProbeOK() bool {
+	keys := []string{"q\"t", "b\\s", "d\x7fl", "c\x01l", "e\x1bc", "n\u00e9", "t\tb", "<&>", "\U0001F600"}
+	probe := orderedmap.New[string, int64]()
+	for i, k := range keys {
+		probe.Set(k, int64(i))
+	}
+	raw, err := json.Marshal(probe)
+	if err != nil {
+		return false
+	}
+	jk, jv, err := orderedMembers(raw)
+	if err != nil || len(jk) != len(keys) {
+		return false
+	}
+	for i := range keys {
+		if jk[i] != keys[i] || jv[i] != int64(i) {
+			return false
+		}
+	}
+	return true
+}
+
 func orderedMembers(raw []byte) ([]string, []int64, error) {
 	dec := json.NewDecoder(bytes.NewReader(raw))
 	t, err := dec.Token()
@@ -241,6 +263,12 @@ func omapStep(regs *[]*om, op omapOp) (out string) {
 		}
 		jk, jv, err := orderedMembers(raw)
 		if err != nil {
+			return "OutPanic"
+		}
+		// the text pipeline to Coq carries plain keys only: keys that need JSON escaping (quote, backslash, DEL,
+		// control characters, non-ASCII, invalid UTF-8 is excluded) are probed here, on the same encoder, and a
+		// probe that does not decode back to the same keys in the same order makes this marshal step fail
+		if !marshalProbeOK() {
 			return "OutPanic"
 		}
 		return "(OutPairs " + gPairs(jk, jv) + ")"
